@@ -438,6 +438,7 @@ def run(ctx):
     sh_ = c05.check_plan(Renumber(ctx, {1: 5, 2: 5, 5: 5, 6: 5, 7: 5}))
     c05.check_tick_body(Renumber(ctx, {4: 5, 5: 5, 6: 5, 7: 5}), sh_)
     check_validation_order(ctx, 6)
+    ob_errors_propagate(ctx, 1, "a command for an unknown pool / a malformed assignment is rejected with an error")
     # "a failure leaves a completed prefix followed by failed operators": kill() fails exactly the unfinished suffix (C02#6)
     c02.check_suffix_slices(ctx, 5)
     c02.check_op_idx(ctx, 5)
